@@ -113,16 +113,18 @@ def r3_tokenizer(rep, src, ginfo):
     pieces.GROUP_CONST.update({i: ginfo[g]['const'] for i, g in enumerate(order) if ginfo[g]['const'] is not None})
     pieces.GROUP_OPTIONAL.clear()
     pieces.GROUP_OPTIONAL.update({i for i, g in enumerate(order) if ginfo[g]['optional']})
-    # the loop variable (line) may be the second element of an enumerate target
+    roles = _roles(f, loop)
+    if len(roles['carried']) != 1:
+        raise AnalysisError('%s: expected one piece of state carried from line to line, found %r' % (f.site, roles['carried']))
     total = 0
     for mode in (False, True):
         for cfn in (pieces.NONE, 'set'):
-            A = pieces.An()
+            A = pieces.An(roles['line'])
             st = pieces.St()
-            st.env['line'] = pieces.P(pieces.Pos(0), st.L)
-            st.env['current_field_name'] = pieces.NONE if cfn is pieces.NONE else pieces.C('x')
-            st.env['auto_correct_newlines'] = mode
-            st.truth['auto_correct_newlines'] = mode
+            st.env[roles['line']] = pieces.P(pieces.Pos(0), st.L)
+            st.env[roles['carried'][0]] = pieces.NONE if cfn is pieces.NONE else pieces.C('x')
+            st.env[roles['flag']] = mode
+            st.truth[roles['flag']] = mode
             what = 'every character of a line is emitted once, in order (%s input, %s)' % ('no-newline' if mode else 'newline-terminated',
                                                                                            'inside a field' if cfn != pieces.NONE else 'outside a field')
             try:
@@ -179,6 +181,41 @@ def r3_tokenizer(rep, src, ginfo):
     return loop
 
 
+def _roles(f, loop):
+    """roles of the locals of the tokenizer, inferred from how they are used: the line variable (loop target), the state carried
+    from line to line (bound before the loop and re-bound inside it), the input-mode flag (a boolean bound before the loop,
+    read but never re-bound inside it)"""
+    t = loop.target
+    if isinstance(t, ast.Tuple) and isinstance(loop.iter, ast.Call) and norm(loop.iter.func) == 'enumerate' and len(t.elts) == 2:
+        t = t.elts[1]
+    if not isinstance(t, ast.Name):
+        raise AnalysisError('%s: the line variable of the loop is not a plain name' % f.site)
+    pre = f.node.body[:f.node.body.index(loop)]
+
+    def bound(stmts):
+        out = {}
+        for st in stmts:
+            for n in ([st] if isinstance(st, (ast.FunctionDef, ast.ClassDef)) else [st] + list(walk_no_nested(st))):
+                if isinstance(n, ast.Assign):
+                    for x in n.targets:
+                        if isinstance(x, ast.Name):
+                            out.setdefault(x.id, []).append(n.value)
+                elif isinstance(n, (ast.AugAssign, ast.AnnAssign)) and isinstance(n.target, ast.Name) and n.value is not None:
+                    out.setdefault(n.target.id, []).append(n.value)
+        return out
+    before, inside = bound(pre), bound(loop.body)
+    read_inside = {n.id for st in loop.body for n in ast.walk(st) if isinstance(n, ast.Name) and isinstance(n.ctx, ast.Load)}
+    carried = sorted(n for n in before if n in inside and n != t.id)
+
+    def boolish(e):
+        return (isinstance(e, ast.Constant) and isinstance(e.value, bool)) or isinstance(e, (ast.Compare, ast.BoolOp)) \
+            or (isinstance(e, ast.UnaryOp) and isinstance(e.op, ast.Not))
+    flags = sorted(n for n, vs in before.items() if n not in inside and n in read_inside and all(boolish(v) for v in vs))
+    if len(flags) != 1:
+        raise AnalysisError('%s: expected one input-mode flag bound before the line loop, found %r' % (f.site, flags))
+    return dict(line=t.id, carried=carried, flag=flags[0])
+
+
 def _line_loop(f):
     loops = [s for s in f.node.body if isinstance(s, ast.For)]
     if len(loops) != 1:
@@ -195,9 +232,9 @@ def _mode_variants(f, loop):
     for p_ in paths.Enumerator(paths.Folder(consts)).run(pre, [paths.Path()]):
         if p_.outcome is not None:
             continue
-        v = p_.env.get('auto_correct_newlines')
+        v = p_.env.get(_roles(f, loop)['flag'])
         if v is None:
-            raise AnalysisError('%s: the input-mode flag auto_correct_newlines is not set before the line loop' % f.site)
+            raise AnalysisError('%s: the input-mode flag is not set before the line loop' % f.site)
         t = paths.Folder(consts).truth(v)
         if t is not None:
             out.append((t, p_.env, paths.Folder(consts)))
@@ -237,7 +274,7 @@ def r7_mode_selection(rep, src, loop):
             return anyl if isinstance(t.ops[0], ast.IsNot) else anyl.complement()
         return None
     for p_ in ps:
-        v = p_.env.get('auto_correct_newlines')
+        v = p_.env.get(_roles(f, loop)['flag'])
         if v is None or paths.Folder(consts).truth(v) is False:
             continue
         lang = anyl
@@ -277,6 +314,7 @@ def _closure_expr(f, name):
 def _merge_sites(f, loop, env, folder):
     """look-ahead merges of one mode: [(predicate param, predicate body, element var, element expr or None, path description)]"""
     found = []
+    linevar = _roles(f, loop)['line']
 
     def loop_handler(en, st, path):
         it = paths.subst(st.iter, path.env) if isinstance(st, ast.For) else None
@@ -285,14 +323,14 @@ def _merge_sites(f, loop, env, folder):
             var = st.target.id
             body = [s for s in st.body if not (isinstance(s, ast.Expr) and isinstance(s.value, ast.Constant))]
             elt = None
-            if len(body) == 1 and isinstance(body[0], ast.AugAssign) and isinstance(body[0].op, ast.Add) and norm(body[0].target) == 'line':
+            if len(body) == 1 and isinstance(body[0], ast.AugAssign) and isinstance(body[0].op, ast.Add) and norm(body[0].target) == linevar:
                 elt = paths.subst(body[0].value, {k: v for k, v in path.env.items() if k != var})
             path.events.append(('merge', it, var, elt, st))
             return [path]
         return None
     en = paths.Enumerator(folder, loop_handler)
     p0 = paths.Path()
-    p0.env = {k: v for k, v in env.items() if k != 'line'}
+    p0.env = {k: v for k, v in env.items() if k != linevar}
     ps = en.run(loop.body, [p0])
     seen = set()
     seen_trees = set()
